@@ -16,7 +16,7 @@ RULE = ("one evaluation = one operation sequence over the store API run in lock-
 ASSUMPTIONS = ["SQLite's own atomic commit and the filesystem are trusted; only process death (os._exit) is modelled",
                "sessions use device id 1 and numeric recipient ids, as every caller in the library does",
                "one-time/signed prekeys are stored under fresh ids only (the library never overwrites an id)"]
-REQUIRED = ["sequences", "reopen_checks", "replace_ops", "crash_children", "crash_died_inside", "crash_outcome:old",
+REQUIRED = ["busy_start_cases", "busy_start_ok", "sequences", "reopen_checks", "replace_ops", "crash_children", "crash_died_inside", "crash_outcome:old",
             "crash_outcome:new", "conversation_restarts", "crash_kind:sql", "crash_kind:commit", "crash_kind:line",
             "manager_sequences", "manager_kill_snapshots", "manager_prekeys_generated", "crash_cases_with_in_process_history"]
 TIMEOUT = {"quick": 900, "thorough": 7200}
@@ -594,6 +594,95 @@ def manager_case(acc, seed, tag, nops, mat):
         close_store(store)
 
 
+def busy_start_case(acc, seed, tag, mat):
+    """The key store of a profile is busy when the client starts (another process / connection holds the database lock past the
+    busy timeout): the start may be refused, but once the lock is gone the next start has to find everything that was stored."""
+    import sqlite3
+    from yowsup.axolotl.factory import AxolotlManagerFactory
+    from yowsup.axolotl.manager import AxolotlManager
+    from yowsup.common.tools import StorageTools
+    import yowsup.axolotl.store.sqlite.liteaxolotlstore as las
+    r = gen.rng(seed, ID, tag)
+    prof = "c13busy_%s_%d" % (tag.replace("/", "_"), os.getpid())
+    user = "4911" + gen.s_from(r, gen.DIGITS, 7)
+    path = StorageTools.constructPath(prof, AxolotlManagerFactory.DB)
+    w = {"kind": "busy-start", "tag": tag}
+    acc.count("busy_start_cases")
+    old_count = AxolotlManager.COUNT_GEN_PREKEYS
+    AxolotlManager.COUNT_GEN_PREKEYS = r.choice([3, 7, 12])
+    # (the store opens its database with sqlite's default busy timeout of 5 s; shortened here so that a case does not take 5 s)
+    real_sqlite = las.sqlite3
+    shim = types.SimpleNamespace(**{k: getattr(sqlite3, k) for k in dir(sqlite3) if not k.startswith("__")})
+    shim.connect = lambda *a, **kw: sqlite3.connect(*a, **dict(kw, timeout=kw.get("timeout", 0.15)))
+    locker = None
+    try:
+        m = AxolotlManagerFactory().get_manager(prof, user)
+        m.level_prekeys()
+        model = Model()
+        ops = []
+        for i in range(r.randint(3, 12)):
+            op = gen_op(r, model, mat)
+            apply_model(op, model, mat)
+            apply_store(op, m._store, mat)
+            ops.append(op[0])
+        w["ops"] = ops
+        want = read_store(m._store, mat)
+        close_store(m._store)
+        mode = r.choice(["EXCLUSIVE", "EXCLUSIVE", "IMMEDIATE"])
+        w["lock"] = mode
+        acc.count("busy_start_lock:" + mode)
+        locker = sqlite3.connect(path, timeout=0.1)
+        locker.isolation_level = None
+        locker.execute("BEGIN " + mode)
+        las.sqlite3 = shim
+        outcome = "started"
+        try:
+            m2 = AxolotlManagerFactory().get_manager(prof, user)
+            try:
+                m2.level_prekeys()
+            except sqlite3.OperationalError:
+                outcome = "started-then-refused"
+            close_store(m2._store)
+        except sqlite3.OperationalError:
+            outcome = "refused"
+        except Exception as e:  # noqa
+            outcome = "raised:" + type(e).__name__
+        finally:
+            las.sqlite3 = real_sqlite
+        acc.count("busy_start_outcome:" + outcome)
+        w["outcome"] = outcome
+        locker.execute("ROLLBACK")
+        locker.close()
+        locker = None
+        try:
+            m3 = AxolotlManagerFactory().get_manager(prof, user)
+            got = read_store(m3._store, mat)
+            close_store(m3._store)
+        except Exception as e:  # noqa
+            acc.violation("busy-start:reopen-raises:%s" % type(e).__name__, "after a start while the key store was busy (%s) the store cannot be opened any more: %r" % (outcome, e), w)
+            return
+        # (a start that got through may have topped up the prekeys: compare what was there before)
+        d = model_diff(want, got) if outcome != "started" else model_diff(want, got, check_local=True)
+        if d and outcome == "started":
+            got.prekeys = {k: v for k, v in got.prekeys.items() if k in want.prekeys}
+            d = model_diff(want, got)
+        if d:
+            acc.violation("busy-start:state-lost:%s" % d.split("[")[0], "a start while the key store was busy (lock %s, outcome %s) loses stored state: %s; files now: %s"
+                          % (mode, outcome, d, sorted(os.listdir(os.path.dirname(path)))), w)
+            return
+        acc.count("busy_start_ok")
+        acc.case(["busy", tag], nontrivial=True)
+    finally:
+        las.sqlite3 = real_sqlite
+        AxolotlManager.COUNT_GEN_PREKEYS = old_count
+        if locker is not None:
+            try:
+                locker.close()
+            except Exception:
+                pass
+        shutil.rmtree(os.path.dirname(path), ignore_errors=True)
+
+
 # ---------------------------------------------------------------------------------------------
 def conversation_case(acc, seed, tag, nsteps):
     """Two managers on file stores exchange messages; either side is restarted (new store + manager objects) at random."""
@@ -672,6 +761,7 @@ def shards(tier, seed, nworkers):
         specs.append({"kind": "crash", "shard": i, "n": (96 if q else 3200) // nsh})
         specs.append({"kind": "conversation", "shard": i, "n": (120 if q else 6000) // nsh})
         specs.append({"kind": "manager", "shard": i, "n": (40 if q else 1600) // nsh})
+        specs.append({"kind": "busy-start", "shard": i, "n": (8 if q else 400) // nsh})
     return specs
 
 
@@ -693,6 +783,10 @@ def run(spec, acc):
             kind = CRASH_OPS[(i + sh) % len(CRASH_OPS)]
             crash_case(acc, seed, tag, mat, kind, prefix_len=[0, 3, 8, 15][i % 4], lines=(i % 3 != 2))
         acc.sample({"crash": "kill at every SQL statement/commit/line boundary of the last op", "ops": CRASH_OPS})
+    elif spec["kind"] == "busy-start":
+        for i in range(spec["n"]):
+            busy_start_case(acc, seed, "busy/%d/%d" % (sh, i), mat)
+        acc.sample({"busy_start": "profile key store locked by another connection past the busy timeout while the client starts; next start must find the stored state"})
     elif spec["kind"] == "manager":
         for i in range(spec["n"]):
             manager_case(acc, seed, "mgr/%d/%d" % (sh, i), 3 + (i % 10), mat)
@@ -715,5 +809,9 @@ def replay(spec, acc):
         sequence_case(acc, seed, tag, w["nops"], mat)
     elif w["kind"] == "crash":
         crash_case(acc, seed, tag, mat, w["opkind"], w["prefix_len"], w["lines"])
+    elif w["kind"] == "busy-start":
+        busy_start_case(acc, seed, tag, mat)
+    elif w["kind"] == "manager":
+        manager_case(acc, seed, tag, len(w.get("ops", [])) or 5, mat)
     else:
         conversation_case(acc, seed, tag, w["nsteps"])
